@@ -488,6 +488,102 @@ func runTwoOfOneModality(modality string, traces [][]bool) []periodCase {
 	return out
 }
 
+// runLateStamps: the observations are what the auditor sees, whatever the time
+// stamps say: samples stamped by the monitored program can carry an OLDER time
+// than an event handled before them (a slow actor's line, a line stamped
+// before a mood change that was processed first); every one of them is still
+// an observation.  `al audits throughout`, one sample per observation, every
+// second one stamped earlier than its predecessor, and a mood change stamped
+// later than the sample that follows it.
+func runLateStamps(modality string, tr []bool) periodCase {
+	cfg := roleText + "audience\n  al audits throughout\n  al expects " + modality + ": [x s] > 3\nend\n"
+	var evs []cmd.VerifEvent
+	ts := 1.0
+	for i, b := range tr {
+		ts += 0.5
+		if i == 1 {
+			evs = append(evs, cmd.VerifEvent{Kind: "mood", Ts: ts + 0.4, Mood: "red"})
+		}
+		st := ts
+		if i%2 == 1 {
+			st = ts - 0.9
+		}
+		evs = append(evs, sample(st, b))
+	}
+	evs = append(evs, cmd.VerifEvent{Kind: "final", Ts: ts + 1.2871})
+	res := cmd.VerifAuditLoop(cfg, evs, false)
+	return periodCase{Name: modality, Trace: tr, Codes: reportsOf(&res, "al"), Panic: problem(&res, false)}
+}
+
+// runComputedPredicate: the predicate is over a variable the auditor itself
+// computes from the sample of the round (own assignments come first), and the
+// periods are delimited by a second signal sampled in the same rounds: a = 1
+// keeps the period open, a = 0 closes it, and the value that comes with the
+// closing sample is still observed in that period.  One period per trace
+// (traces of length >= 1).
+func runComputedPredicate(modality string, traces [][]bool) []periodCase {
+	cfg := "role r\n  :noop true\n  spotlight true\n  signal s scalar at (?P<ts_now>)s=(?P<scalar>\\d+)\n  signal a scalar at (?P<ts_now>)a=(?P<scalar>\\d+)\nend\ncast\n  x plays r\nend\n" +
+		"audience\n  al audits only while [x a] > 0\n  al computes v as [x s]\n  al expects " + modality + ": v > 3\nend\n"
+	var evs []cmd.VerifEvent
+	ts := 0.0
+	type span struct{ from, to int }
+	var spans []span
+	for _, tr := range traces {
+		from := len(evs)
+		for i, b := range tr {
+			ts += 0.5
+			v, a := 1.0, 1.0
+			if b {
+				v = 5.0
+			}
+			if i == len(tr)-1 {
+				a = 0.0
+			}
+			evs = append(evs, cmd.VerifEvent{Kind: "sig", Ts: ts, Values: []cmd.VerifValue{
+				{Actor: "x", Sig: "a", IsNum: true, Num: a}, {Actor: "x", Sig: "s", IsNum: true, Num: v}}})
+		}
+		spans = append(spans, span{from, len(evs) - 1})
+	}
+	evs = append(evs, cmd.VerifEvent{Kind: "final", Ts: ts + 1.2871})
+	res := cmd.VerifAuditLoop(cfg, evs, false)
+	var out []periodCase
+	for k, tr := range traces {
+		pc := periodCase{Name: modality, Trace: tr, Panic: problem(&res, false)}
+		if len(tr) == 1 {
+			// a period that would open and close in the same round never opens
+			pc.Trace = nil
+			pc.Panic = "skip"
+		}
+		for _, o := range res.Outs {
+			if o.Kind == "report" && o.Auditor == "al" && o.Round >= spans[k].from && o.Round <= spans[k].to {
+				pc.Codes = append(pc.Codes, o.Result)
+			}
+		}
+		out = append(out, pc)
+	}
+	return out
+}
+
+// runConditionalCompute: the predicate depends on a variable set by a
+// conditional `computes` (a ternary without else yields nothing in the rounds
+// where the condition fails: the variable keeps its value and stays usable).
+// The first sample (9) sets k = 0; afterwards k is not assigned any more and
+// `[x s] + k > 3` is observed with every sample.
+func runConditionalCompute(modality string, tr []bool) periodCase {
+	cfg := roleText + "audience\n  al audits throughout\n  al computes k as ([x s] > 8) ? 0\n  al expects " + modality + ": ([x s] + k) > 3\nend\n"
+	var evs []cmd.VerifEvent
+	ts := 0.5
+	evs = append(evs, cmd.VerifEvent{Kind: "sig", Ts: ts, Values: []cmd.VerifValue{{Actor: "x", Sig: "s", IsNum: true, Num: 9}}})
+	for _, b := range tr {
+		ts += 0.5
+		evs = append(evs, sample(ts, b))
+	}
+	evs = append(evs, cmd.VerifEvent{Kind: "final", Ts: ts + 1.2871})
+	res := cmd.VerifAuditLoop(cfg, evs, false)
+	obs := append([]bool{true}, tr...)
+	return periodCase{Name: modality, Trace: obs, Codes: reportsOf(&res, "al"), Panic: problem(&res, false)}
+}
+
 type period3Case struct {
 	Name  string
 	Trace []int // 0 false, 1 true, 2 the predicate does not evaluate
@@ -650,6 +746,43 @@ func main() {
 						group = append(group, small[(i+j*step)%len(small)])
 					}
 					audPeriods = append(audPeriods, runTwoOfOneModality(n, group)...)
+				}
+			}
+		}
+		// samples stamped earlier than their predecessors; predicates over a variable computed by
+		// the auditor, periods closed by a signal sampled in the same round; conditional computes
+		for l := 2; l <= 4; l++ {
+			for bits := 0; bits < 1<<uint(l); bits++ {
+				tr := make([]bool, l)
+				for i := range tr {
+					tr[i] = bits&(1<<uint(i)) != 0
+				}
+				audPeriods = append(audPeriods, runLateStamps(n, tr))
+				if l <= 3 {
+					audPeriods = append(audPeriods, runConditionalCompute(n, tr))
+				}
+			}
+		}
+		{
+			var small [][]bool
+			for l := 2; l <= 3; l++ {
+				for bits := 0; bits < 1<<uint(l); bits++ {
+					tr := make([]bool, l)
+					for i := range tr {
+						tr[i] = bits&(1<<uint(i)) != 0
+					}
+					small = append(small, tr)
+				}
+			}
+			for i := 0; i < len(small); i += 3 {
+				var group [][]bool
+				for j := 0; j < 3; j++ {
+					group = append(group, small[(i+j*5)%len(small)])
+				}
+				for _, pc := range runComputedPredicate(n, group) {
+					if pc.Panic != "skip" {
+						audPeriods = append(audPeriods, pc)
+					}
 				}
 			}
 		}
